@@ -1,6 +1,7 @@
 //! Runs one sequence on the implementation, the Lean model (driver) and the BTreeMap oracle,
 //! and reports where they differ, per facet.
 use crate::driver::Driver;
+use crate::exec::{ChildExec, Exec};
 use crate::imp::Impl;
 use crate::proto::*;
 use std::collections::BTreeMap;
@@ -110,10 +111,17 @@ pub struct RunOpts {
     pub check_inv: bool,
     /// run the independent decoder at every byte comparison point and at every stats call
     pub decoder: bool,
+    /// run the implementation in a child process (reopen = fresh process)
+    pub child: bool,
+    /// at every flush/sync: copy the directory, compare the copy with the model (facet sync-bytes),
+    /// open the copy and compare its contents with the oracle (facet sync-oracle), check the io-trace (facet trace)
+    pub sync_check: bool,
+    /// child mode only: SIGKILL the writer right after a successful flush/sync, then look at the directory
+    pub kill_after_sync: bool,
 }
 impl Default for RunOpts {
     fn default() -> Self {
-        RunOpts { model: true, cmp_every: None, cmp_end: true, stop_first: true, op_budget_ms: 20_000, check_inv: false, decoder: false }
+        RunOpts { model: true, cmp_every: None, cmp_end: true, stop_first: true, op_budget_ms: 20_000, check_inv: false, decoder: false, child: false, sync_check: false, kill_after_sync: false }
     }
 }
 
@@ -125,6 +133,45 @@ pub struct Outcome {
 }
 
 type Oracle = BTreeMap<Vec<u8>, Vec<u8>>;
+
+/// opens `dir` with a fresh in-process instance of the crate and compares every map in `scope`
+/// with its oracle: length, every key, absent keys, full traversal.
+pub fn check_dir_against_oracle(dir: &Path, scope: &[(usize, Kt)], oracles: &BTreeMap<usize, Oracle>) -> Option<String> {
+    let r = catch_unwind(AssertUnwindSafe(|| {
+        let mut imp = Impl::new(dir);
+        for (id, kt) in scope {
+            let Some(o) = oracles.get(id) else { continue };
+            if let Err(e) = imp.open(*id, *kt, &Params::buckets(1)) {
+                return Some(format!("m{} does not open: {:?}", id, e.kind()));
+            }
+            let l = imp.exec(&Op::Len);
+            if l != o.len().to_string() {
+                return Some(format!("m{}: len {} but {} entries were stored", id, l, o.len()));
+            }
+            for (k, v) in o.iter() {
+                let g = imp.exec(&Op::Get(B::Hex(k.clone())));
+                if g != repr_opt(&Some(v.clone())) {
+                    return Some(format!("m{}: get {} = {} but {} was stored", id, hex(k), g, brepr(v)));
+                }
+            }
+            let it = imp.exec(&Op::Iter(0));
+            match iter_multiset(&it) {
+                Some((n, _)) if n == o.len() => {}
+                _ => return Some(format!("m{}: traversal yields {} but {} entries were stored", id, it.chars().take(60).collect::<String>(), o.len())),
+            }
+        }
+        imp.close_all();
+        std::mem::forget(imp);
+        None
+    }));
+    match r {
+        Ok(x) => x,
+        Err(e) => {
+            let msg = e.downcast_ref::<String>().cloned().or_else(|| e.downcast_ref::<&str>().map(|s| s.to_string())).unwrap_or_default();
+            Some(format!("opening the directory panics: {}", msg.chars().take(80).collect::<String>()))
+        }
+    }
+}
 
 pub fn sig_of(kt: Kt) -> [u8; 8] {
     match kt {
@@ -178,7 +225,7 @@ fn iter_multiset(line: &str) -> Option<(usize, Vec<String>)> {
 }
 
 pub fn run_seq(seq: &Seq, dir: &Path, driver: &mut Option<Driver>, opts: &RunOpts) -> Outcome {
-    let mut imp = Impl::new(dir);
+    let mut imp = if opts.child { Exec::Child(ChildExec::new(dir)) } else { Exec::In(Impl::new(dir)) };
     let mut diffs: Vec<Diff> = Vec::new();
     let mut cov = Cov::default();
     let mut transcript = Vec::new();
@@ -187,6 +234,8 @@ pub fn run_seq(seq: &Seq, dir: &Path, driver: &mut Option<Driver>, opts: &RunOpt
     let mut cur: usize = 0;
     let mut dead = false;
     let mut prev_dec: BTreeMap<usize, crate::decoder::Decoded> = BTreeMap::new();
+    let mut pending_sync: std::collections::BTreeSet<usize> = Default::default();
+    let mut ever_opened: std::collections::BTreeSet<usize> = Default::default();
 
     let mut all_ops: Vec<Op> = vec![Op::Map(0, seq.kt, seq.params)];
     all_ops.extend(seq.ops.iter().cloned());
@@ -290,15 +339,11 @@ pub fn run_seq(seq: &Seq, dir: &Path, driver: &mut Option<Driver>, opts: &RunOpt
         }
         // ---------------- implementation side
         let wid = watch_begin(opts.op_budget_ms, format!("op={} {}", idx, op.text()));
-        let got = match catch_unwind(AssertUnwindSafe(|| imp.exec(&op))) {
-            Ok(s) => s,
-            Err(e) => {
-                cov.panics += 1;
-                dead = true;
-                let msg = e.downcast_ref::<String>().cloned().or_else(|| e.downcast_ref::<&str>().map(|s| s.to_string())).unwrap_or_default();
-                format!("panic:{}", msg.chars().take(80).collect::<String>().replace('\n', " "))
-            }
-        };
+        let got = imp.exec(&op);
+        if got.starts_with("panic") || got == "child-dead" {
+            cov.panics += 1;
+            dead = true;
+        }
         watch_end(wid);
         if got.starts_with("panic") && want.as_deref() == Some("panic") {
             // expected panic at creation (Capacity(0)): the case ends here
@@ -369,9 +414,10 @@ pub fn run_seq(seq: &Seq, dir: &Path, driver: &mut Option<Driver>, opts: &RunOpt
             }
         }
         if opts.decoder && matches!(op, Op::Stats) && !dead {
-            let _ = catch_unwind(AssertUnwindSafe(|| imp.exec(&Op::Flush)));
-            if let Some(slot) = imp.maps.get(imp.cur) {
-                let dec = crate::decoder::decode(dir, &slot.name, &sig_of(slot.kt));
+            let _ = imp.exec(&Op::Flush);
+            let curid = imp.cur();
+            if let Some(slot) = imp.maps().into_iter().find(|m| m.0 == curid) {
+                let dec = crate::decoder::decode(dir, &format!("m{}", slot.0), &sig_of(slot.1));
                 if dec.errors.is_empty() {
                     oracle_want = Some(dec.stats_line());
                 } else {
@@ -403,6 +449,74 @@ pub fn run_seq(seq: &Seq, dir: &Path, driver: &mut Option<Driver>, opts: &RunOpt
                 diffs.push(Diff { idx, facet, op: op.text(), got: got.clone(), want: w.clone() });
             }
         }
+        let changed = match &op {
+            Op::Put(..) => true,
+            Op::BulkPut(v) | Op::BulkPutString(v) | Op::PutFromIter(v) => !v.is_empty(),
+            Op::Del(..) => got.starts_with("some"),
+            Op::BulkDel(..) => got.contains("some"),
+            _ => false,
+        };
+        if changed {
+            pending_sync.insert(cur);
+        }
+        if let Op::Map(id, ..) = &op {
+            if !ever_opened.contains(id) {
+                ever_opened.insert(*id);
+                pending_sync.insert(*id);
+            }
+        }
+        let is_sync = matches!(op, Op::Flush | Op::SyncAll | Op::SyncData | Op::DbSyncAll | Op::DbSyncData);
+        if opts.sync_check && is_sync && !dead && got == "ok" {
+            let db_level = matches!(op, Op::DbSyncAll | Op::DbSyncData);
+            let scope: Vec<(usize, Kt)> = imp.maps().into_iter().filter(|m| db_level || m.0 == cur).collect();
+            // --- io trace
+            let tr = imp.take_trace();
+            let want_ev = match op { Op::Flush => "flush", Op::SyncAll | Op::DbSyncAll => "sync_all", _ => "sync_data" };
+            let dirty_in_scope = scope.iter().filter(|m| pending_sync.contains(&m.0)).count();
+            for f in ["val", "key", "htx"] {
+                let have = tr.split(',').filter(|e| *e == format!("{}:{}", f, want_ev)).count();
+                if have < dirty_in_scope {
+                    diffs.push(Diff { idx, facet: "trace", op: op.text(), got: format!("{} `{}:{}` events in [{}]", have, f, want_ev, tr.chars().take(200).collect::<String>()), want: format!("{} (one per map with pending updates)", dirty_in_scope) });
+                }
+            }
+            // --- the directory at this very moment
+            let snap = if opts.kill_after_sync && opts.child {
+                if let Exec::Child(c) = &mut imp { c.kill9(); }
+                dir.to_path_buf()
+            } else {
+                let snap = dir.with_extension("snap");
+                let _ = std::fs::remove_dir_all(&snap);
+                let _ = std::fs::create_dir_all(&snap);
+                if let Ok(rd) = std::fs::read_dir(dir) {
+                    for e in rd.flatten() {
+                        let _ = std::fs::copy(e.path(), snap.join(e.file_name()));
+                    }
+                }
+                snap
+            };
+            for (id, _) in &scope {
+                if model_maps.get(id) == Some(&true) && opts.model && driver.is_some() {
+                    let a = ask(driver, format!("m{} cmp {}", id, snap.to_string_lossy()));
+                    cov.cmps += 1;
+                    if a != "htx=ok key=ok val=ok" {
+                        diffs.push(Diff { idx, facet: "sync-bytes", op: format!("snapshot of m{} at {}", id, op.text()), got: a, want: "htx=ok key=ok val=ok".into() });
+                    }
+                }
+            }
+            if let Some(e) = check_dir_against_oracle(&snap, &scope, &oracles) {
+                diffs.push(Diff { idx, facet: "sync-oracle", op: format!("open the directory as it is when {} returns", op.text()), got: e, want: "opens to exactly the current map state".into() });
+            }
+            if snap != dir {
+                let _ = std::fs::remove_dir_all(&snap);
+            } else if imp.reopen_all().is_err() {
+                dead = true;
+            }
+            for m in &scope {
+                pending_sync.remove(&m.0);
+            }
+        } else if opts.sync_check && is_sync {
+            let _ = imp.take_trace();
+        }
         if opts.check_inv && op.is_update() && opts.model && driver.is_some() {
             let a = ask(driver, format!("m{} check", cur));
             if a != "inv-ok" {
@@ -418,14 +532,14 @@ pub fn run_seq(seq: &Seq, dir: &Path, driver: &mut Option<Driver>, opts: &RunOpt
         if let (Some(mode), false) = (do_cmp, dead) {
             if opts.model && driver.is_some() {
                 let wid = watch_begin(opts.op_budget_ms, format!("op={} cmp-prepare", idx));
-                let prep = catch_unwind(AssertUnwindSafe(|| {
-                    if mode == 0 {
-                        imp.exec(&Op::Flush)
-                    } else {
-                        imp.close_all();
-                        "ok".to_string()
-                    }
-                }));
+                let prep: Result<(), ()> = if mode == 0 {
+                    let r = imp.exec(&Op::Flush);
+                    if r == "ok" { Ok(()) } else { Err(()) }
+                } else if imp.close_all() {
+                    Ok(())
+                } else {
+                    Err(())
+                };
                 watch_end(wid);
                 if prep.is_err() {
                     dead = true;
@@ -446,8 +560,8 @@ pub fn run_seq(seq: &Seq, dir: &Path, driver: &mut Option<Driver>, opts: &RunOpt
                             if !allowed {
                                 continue;
                             }
-                            let Some(slot) = imp.maps.iter().find(|m| m.name == format!("m{}", id)) else { continue };
-                            let dec = crate::decoder::decode(dir, &slot.name, &sig_of(slot.kt));
+                            let Some(slot) = imp.maps().into_iter().find(|m| m.0 == id) else { continue };
+                            let dec = crate::decoder::decode(dir, &format!("m{}", id), &sig_of(slot.1));
                             if let Some(e) = dec.errors.first() {
                                 diffs.push(Diff { idx, facet: "decoder", op: format!("decode m{} after {}", id, op.text()), got: e.clone(), want: "consistent structure".into() });
                             } else if let Some(o) = oracles.get(&id) {
@@ -477,10 +591,10 @@ pub fn run_seq(seq: &Seq, dir: &Path, driver: &mut Option<Driver>, opts: &RunOpt
                     }
                     if mode == 1 {
                         let wid = watch_begin(opts.op_budget_ms, format!("op={} reopen-after-cmp", idx));
-                        let r = catch_unwind(AssertUnwindSafe(|| imp.reopen_all()));
+                        let r = imp.reopen_all();
                         watch_end(wid);
                         match r {
-                            Ok(Ok(())) => {}
+                            Ok(()) => {}
                             _ => {
                                 dead = true;
                                 diffs.push(Diff { idx, facet: "open", op: "reopen-after-cmp".into(), got: "panic/err".into(), want: "ok".into() });
@@ -494,8 +608,7 @@ pub fn run_seq(seq: &Seq, dir: &Path, driver: &mut Option<Driver>, opts: &RunOpt
             break;
         }
     }
-    // drop handles quietly
-    let _ = catch_unwind(AssertUnwindSafe(|| imp.close_all()));
-    std::mem::forget(imp); // after a panic the RefCells may be poisoned; never unwind from drop
+    // drop handles quietly (after a panic the RefCells may be poisoned; never unwind from drop)
+    imp.finish();
     Outcome { diffs, steps, cov, transcript }
 }
